@@ -16,10 +16,10 @@ RULE = (
 ASSUMPTIONS = [
     "CPython data races below the granularity of a source line (bytecode-level) are not explored; deque.append / list.append are atomic under the GIL",
     "functors are the harness's generator / list / None-returning / raising workers; the raising functor is only checked for termination and at-most-once processing",
-    "Queue is unbounded as in map_async; timeouts are not modelled (map_async uses none)",
+    "Queue is unbounded as in map_async; a blocking call made with a timeout may end through its timer (bounded deviation, at most 1 per execution); map_async itself uses no timeouts",
 ]
 BOUNDS = {
-    "quick": "sync points: (2 items,2 threads) bound 2; (3,2),(2,3),(1,2),(0,2),(3,1) bound 1; fine (line-level) points: (2,2) bound 1",
+    "quick": "timers: at most 1 timer may fire per execution (counts against the bound); sync points: (2 items,2 threads) bound 2; (3,2),(2,3),(1,2),(0,2),(3,1) bound 1; fine (line-level) points: (2,2) bound 1",
     "thorough": "sync points: (2,2) bound 3 for every functor; (3,2),(2,3) bound 2 for gen_all/list/raise1; (3,3) bound 2 and (4,2) bound 1 for gen_all; fine points: (2,2) bound 2 (gen_all, list), (3,2) bound 1; no-len iterable (3,2) bound 2",
 }
 
@@ -137,6 +137,8 @@ def run_one(cfg, prefix):
 def judge(cfg, outcome):
     n, nthreads, fkind, gran, _b = cfg
     msgs = []
+    if outcome["error"] and ("WallClockTimeout" in outcome["error"] or "ReplayDivergence" in outcome["error"]):
+        raise RuntimeError("engine condition, not a verdict: " + outcome["error"])
     if outcome["error"]:
         # engine-level problem (horizon/replay divergence): surfaced as violation of termination only for horizon
         msgs.append(f"execution did not finish: {outcome['error']}")
